@@ -79,7 +79,7 @@ impl DecimalBuilder {
 
 impl Context for DecimalBuilder {
     fn annotate(&self, annotations: &mut BTreeMap<String, String>) {
-        set_default(annotations, "filed", &self.path);
+        set_default(annotations, "field", &self.path);
         set_default(annotations, "data_type", "Decimal128(..)");
     }
 }
